@@ -102,6 +102,8 @@ func c02Exec(run *ev.Run, c ev.Case) {
 				one("kg-bmc-is-password", 0, 0)
 				one("kg-bmc-zero", 0, 0)
 				one("kg-console-is-password", 0, 0)
+				one("kg-console-empty-bmc-zero", 0, 0)
+				one("kg-console-empty-bmc-random", 0, 0)
 			}
 			pre = ""
 			for bit := 0; bit < 160; bit++ {
@@ -235,6 +237,14 @@ func c02Run(run *ev.Run, o c02One) {
 		opts.KG = make([]byte, 20)
 		copy(opts.KG, cfg.Password)
 		if !o.KG {
+			cfg.KG = rbytes(r, 20)
+		}
+	case "kg-console-empty-bmc-zero", "kg-console-empty-bmc-random":
+		// the caller has no K_G and says so with a zero-length (non-nil) slice; the BMC
+		// does hold one: all zeros (what an empty HMAC key equals), or anything
+		opts.KG = [][]byte{{}, make([]byte, 0, 20), []byte("")}[int(o.Seed+int64(o.Auth))%3]
+		cfg.KG = make([]byte, 20)
+		if o.Kind == "kg-console-empty-bmc-random" {
 			cfg.KG = rbytes(r, 20)
 		}
 	case "kg-bit":
